@@ -137,6 +137,17 @@ def run(prop: str, ctx: Context, seed: int) -> int:
     if src_rc:
         print(f"ANALYSIS-ERROR property={prop} a seeded change recorded as caught is no longer reported")
         return 2
+    ref_rc, ref_rows = seeded.run_refactors(prop, ctx)
+    if ref_rows:
+        silent = sum(1 for r in ref_rows if r["status"] == "clean")
+        print(f"[{prop}] independent refactorings: silent {silent}/{len(ref_rows)}")
+        if os.path.exists(ev_path) and os.environ.get("VERIF_NO_EVIDENCE") != "1":
+            ev = json.load(open(ev_path))
+            ev["coverage"].setdefault("self_validation", {})["independent_refactorings"] = ref_rows
+            json.dump(ev, open(ev_path, "w"), indent=1, default=str)
+    if ref_rc:
+        print(f"ANALYSIS-ERROR property={prop} a behaviour-preserving refactoring is reported or cannot be decided")
+        return 2
     if bad:
         for b in bad:
             print(f"  CHECKER-DEFECT {b}")
